@@ -67,18 +67,43 @@ Definition matmul_forward := np_matmul.
 Definition F_matmul (a b:tensor A) : option (tensor A) :=
   if (rank a <? 2) || (rank b <? 2) then None else np_matmul a b.
 
-Definition matmul_backward (g a b:tensor A) : option (tensor A * tensor A) :=
+(* the gradients for operands of rank >= 2 *)
+Definition matmul_backward2 (g a b:tensor A) : option (tensor A * tensor A) :=
   bT <- swap_last2 b ;; ga <- np_matmul g bT ;;
   aT <- swap_last2 a ;; gb <- np_matmul aT g ;;
   ua <- unbroadcast ga (tshape a) ;; ub <- unbroadcast gb (tshape b) ;; Some (ua, ub).
 
+(* a[np.newaxis, :] / b[:, np.newaxis] / grad[..., np.newaxis] / grad[..., np.newaxis, :] and the reshapes back *)
+Definition row_of (a:tensor A) : tensor A := mkT (1 :: tshape a) (fun j => tat a (tl j)).
+Definition col_of (b:tensor A) : tensor A := mkT (tshape b ++ [1]) (fun j => tat b (removelast j)).
+Definition add_row_axis (g:tensor A) : tensor A :=
+  mkT (insert_at (rank g - 1) 1 (tshape g)) (fun j => tat g (remove_at (rank g - 1) j)).
+Definition unrow (sh:shape) (t:tensor A) : tensor A := mkT sh (fun j => tat t (0 :: j)).
+Definition uncol (sh:shape) (t:tensor A) : tensor A := mkT sh (fun j => tat t (j ++ [0])).
+
+(* matmul_backward: 1-D operands promoted as np.matmul does, the dropped axis put back into grad *)
+Definition matmul_backward (g a b:tensor A) : option (tensor A * tensor A) :=
+  let a1 := rank a =? 1 in let b1 := rank b =? 1 in
+  let a2 := if a1 then row_of a else a in
+  let b2 := if b1 then col_of b else b in
+  let g1 := if b1 then col_of g else g in
+  let g2 := if a1 then add_row_axis g1 else g1 in
+  r <- matmul_backward2 g2 a2 b2 ;;
+  Some (if a1 then unrow (tshape a) (fst r) else fst r, if b1 then uncol (tshape b) (snd r) else snd r).
+
 Definition addmm_forward (a b c:tensor A) : option (tensor A) := m <- np_matmul b c ;; badd a m.
 
-(* np.broadcast_shapes(b.shape[:-2], c.shape[:-2]) + (b.shape[-2], c.shape[-1]) *)
+(* matmul_shape(b.shape, c.shape): the shape of b @ c under np.matmul's 1-D promotion *)
 Definition addmm_prod_shape (sb sc:shape) : option shape :=
-  bs <- broadcast_shapes (batch_of sb) (batch_of sc) ;;
-  if (2 <=? length sb) && (1 <=? length sc)
-  then Some (bs ++ [nth (length sb - 2) sb 0; nth (length sc - 1) sc 0]) else None.
+  let b1 := length sb =? 1 in let c1 := length sc =? 1 in
+  let b2 := if b1 then 1 :: sb else sb in
+  let c2 := if c1 then sc ++ [1] else sc in
+  bs <- broadcast_shapes (batch_of b2) (batch_of c2) ;;
+  if (2 <=? length b2) && (1 <=? length c2)
+  then let sh := bs ++ [nth (length b2 - 2) b2 0; nth (length c2 - 1) c2 0] in
+       let sh1 := if c1 then removelast sh else sh in
+       Some (if b1 then (if c1 then removelast sh1 else remove_at (length sh1 - 2) sh1) else sh1)
+  else None.
 
 Definition addmm_backward (g a b c:tensor A) : option (tensor A * tensor A * tensor A) :=
   ps <- addmm_prod_shape (tshape b) (tshape c) ;;
